@@ -13,6 +13,7 @@ mod snapshot;
 mod vtxrec;
 mod audio;
 mod ay;
+mod assets;
 mod determ;
 mod loaders;
 
@@ -56,6 +57,7 @@ fn main() {
         "audio" => audio::run(&args),
         "ay" => ay::run(&args),
         "determ" => determ::run(&args),
+        "assets" => assets::run(&args),
         "loaders" => loaders::run(&args),
         "portsdbg" => ports::debug(),
         _ => {
